@@ -73,13 +73,16 @@ def shard(job):
             out["fail"] = {"_crash": True, "_rc": rc, "_args": base, "_stderr": se[-2000:]}
             break
         kind = classify(rc, se)
-        if kind == "hang":
-            # re-run the one case alone with a six-fold budget before calling it a hang (a loaded machine can starve a shard)
+        if kind == "hang" and out.get("confirmed_hangs", 0) < 2:
+            # re-run the one case alone with a larger budget before calling it a hang (a loaded machine can starve a shard); once two
+            # cases of a shard have hung again on their own, further ones are taken at face value - a real hang costs the full budget each time
+            out["confirmed_hangs"] = out.get("confirmed_hangs", 0) + 1
             try:
-                r2 = subprocess.run([exe] + [str(a) for a in base] + ["--only", str(case), "--budget", str(30 if "--long" not in base else 720)],
-                                    capture_output=True, text=True, env=env, timeout=900, errors="replace")
+                r2 = subprocess.run([exe] + [str(a) for a in base] + ["--only", str(case), "--budget", str(30 if "--long" not in base else 300)],
+                                    capture_output=True, text=True, env=env, timeout=400, errors="replace")
                 if r2.returncode == 0:
                     out["slow_under_load"] = out.get("slow_under_load", 0) + 1
+                    out["confirmed_hangs"] -= 1
                     start = case + 1
                     continue
             except subprocess.TimeoutExpired:
@@ -90,7 +93,7 @@ def shard(job):
         out["cases"] += max(0, done - start) // max(1, int(base[base.index("--nshards") + 1]))
         start = case + 1
         restarts += 1
-        if restarts > 25:
+        if restarts > 8:
             out["capped"] = True
             break
     if os.path.exists(marker):
